@@ -23,7 +23,7 @@ func init() {
 		Explanation: "Decides the operator-table clause: (R-PREC) the switch of getInfixOpInfo is read as a table name -> (precedence, arity): * / % share a level above + -, above !, above the seven comparisons (one level), above & &&, above | ||, above the comma, above parentheses, above the end marker; the function level exceeds all; arity is 2 for binary symbols and 1 for !; every key of builtinOperators that is not identifier-shaped has an explicit entry (a missing one silently becomes a function name) and aliases of one operator share a level; names without an entry get the function level and 'count from the stack'; " +
 			"(R-ASSOC) in the reduction loop of the shunting-yard parser the loop stops only when the incoming operator binds strictly tighter than the stack top (comparePrecedence(car, top) > 0, with comparePrecedence = precedence(car) - precedence(top), or the function level for a function name), so equal precedence reduces first: left associativity; a function name never reduces what is below it; the operands of a reduced operator are popped into their slots from last to first (source order is kept). " +
 			"(R-REDUCEGATE) every buildParentNode call of the reduction closure is edge-dominated by the losing outcome of comparePrecedence(car, top.t) > 0 for the closure's own arriving token; after `)` meets `(` the closure returns without building; for an arriving operator name its arity is consulted so that a prefix operator reduces nothing (D13, repaired). " +
-			"(R-OPNAMES) a name is read as an undefined variable only when the resolver of buildOperatorNode (getOperator: built-in table, then Config.OperatorMap) does not know it; the infix parser tries leaves before operators. Panic-freedom of the shunting-yard stacks is C06. NOT decided: call arity from the recorded stack height and `!ident` splitting in the lexer, i.e. tree equality for all expressions. (R-INFIXWHOLE) the infix parser returns a tree only over the !p.hasNext() edge of its main loop, and every operator node is built from a completely filled slice of the cnt operands popped for it.",
+			"(R-OPNAMES) a name is read as an undefined variable only when the resolver of buildOperatorNode (getOperator: built-in table, then Config.OperatorMap) does not know it; the infix parser tries leaves before operators. Panic-freedom of the shunting-yard stacks is C06. NOT decided: call arity from the recorded stack height and `!ident` splitting in the lexer, i.e. tree equality for all expressions. (R-INFIXWHOLE) the infix parser returns a tree only over the !p.hasNext() edge of its main loop, and every operator node is built from a completely filled slice of the cnt operands popped for it. Round 2: (R-LEAFFIRST) a token is consumed as an operator only on the edge where buildLeafNode returned no leaf for it; (R-REDUCEALL) the reduction loop is left only with an empty operator stack, after the parenthesis match, on winning the precedence comparison, or with an error; (R-WIDTH) no stack height of the infix parser is narrowed.",
 		Run:       runC15,
 		Witnesses: c15Witnesses,
 	})
@@ -309,6 +309,7 @@ func runC15(w *World, r *Report) {
 	}
 	ruleAssoc(w, r, funcPrec)
 	ruleReduceGate(w, r)
+	ruleReduceAll(w, r)
 	ruleInfixWhole(w, r)
 	ruleOpNames(w, r)
 }
@@ -530,7 +531,7 @@ func onlyReturnsFrom(b *ssa.BasicBlock) bool {
 	return true
 }
 
-var c15Witnesses = append(append(append(append(wave4WitnessesC15, infixWholeWitnesses...), leafFirstWitnesses...), append(infixMapTableWitnesses, wave9Witnesses15...)...), []Witness{
+var c15Witnesses = append(append(append(append(wave4WitnessesC15, infixWholeWitnesses...), leafFirstWitnesses...), append(append(infixMapTableWitnesses, wave9Witnesses15...), wave10Witnesses15...)...), []Witness{
 	{Name: "mod-at-additive-level", Rule: "R-PREC", Edits: []Edit{
 		{File: "parser.go", Old: "	case \"*\", \"/\", \"%\":\n		return infixOpInfo{precedence: 8, childCount: 2}\n	case \"+\", \"-\":", New: "	case \"*\", \"/\":\n		return infixOpInfo{precedence: 8, childCount: 2}\n	case \"+\", \"-\", \"%\":"}}},
 	{Name: "double-equals-missing", Rule: "R-PREC", Edits: []Edit{
